@@ -5,11 +5,11 @@ from harness.dwarfkit import mk_dwarfinfo, unit_header, abbrev_table
 
 PROPERTY = 'C13'
 ASSUMPTIONS = [
-    'address ranges of one .debug_aranges section are pairwise disjoint and non-empty (unsorted, adjacent allowed); 32-bit DWARF format (as the statement says)',
+    'address ranges of one .debug_aranges section are pairwise disjoint (unsorted, adjacent allowed; empty ranges at a non-zero address may lie anywhere); 32-bit DWARF format (as the statement says)',
     'tables are generated from skeletons (number of sets / tuples / names and unit sizes fixed per instance); addresses, lengths, offsets and header values are symbolic',
 ]
 STUBS = ['SymStream (io.BytesIO)', 'SxPacker (struct.Struct)']
-OUTSIDE = ['64-bit format lookup tables', 'segmented address ranges', 'more than 2 sets x 2 tuples / names', 'zero-length ranges']
+OUTSIDE = ['64-bit format lookup tables', 'segmented address ranges', 'more than 2 sets x 2 tuples / names']
 
 
 def _aranges_section(ctx, cfg):
@@ -30,7 +30,11 @@ def _aranges_section(ctx, cfg):
         for t in range(ntup):
             b = ctx.uint('set%d.t%d.begin' % (s, t), 8 * addr)
             ln = ctx.uint('set%d.t%d.len' % (s, t), 8 * addr)
-            ctx.assume(ctx.land(ln > 0, b + ln <= (1 << (8 * addr))))
+            if cfg.get('empty_ok'):
+                # an empty range at a non-zero address is a legal tuple (only the pair (0, 0) terminates a set): it contains no address
+                ctx.assume(ctx.land(ctx.lor(ln > 0, b != 0), b + ln <= (1 << (8 * addr))))
+            else:
+                ctx.assume(ctx.land(ln > 0, b + ln <= (1 << (8 * addr))))
             tuples.append((b, ln))
             body += enc.enc_int(b, addr, little) + enc.enc_int(ln, addr, little)
         body += [0] * (2 * addr)
@@ -49,7 +53,8 @@ def h_aranges(ctx):
     for i in range(len(want)):
         for j in range(i + 1, len(want)):
             a, b = want[i], want[j]
-            ctx.assume(ctx.lor(a['begin'] + a['length'] <= b['begin'], b['begin'] + b['length'] <= a['begin']))
+            # (an empty range contains no address: it may lie anywhere, also inside another range)
+            ctx.assume(ctx.lor(a['length'] == 0, b['length'] == 0, a['begin'] + a['length'] <= b['begin'], b['begin'] + b['length'] <= a['begin']))
     di, streams = mk_dwarfinfo(ctx, little, addr, debug_aranges=sec)
     ar = di.get_aranges()
     ctx.outcome('ok')
@@ -221,7 +226,8 @@ HARNESSES = [
     H('h13_1_aranges', h_aranges,
       lambda tier: [dict(little=l, addr=a, sets=s) for l, a in ((True, 8), (False, 4), (True, 4), (False, 8))
                     for s in ([0], [1], [2], [1, 1], [0, 2]) + (([2, 2], [1, 0, 1]) if tier == 'thorough' else ())] +
-                   [dict(little=l, addr=a, sets=s, addrs=ad) for l, a in ((True, 8), (False, 4)) for s, ad in (([1, 1], [4, 8]), ([1, 1], [8, 4]), ([1, 0, 1], [4, 8, 4]))], expect=('ok', 'miss'),
+                   [dict(little=l, addr=a, sets=s, addrs=ad) for l, a in ((True, 8), (False, 4)) for s, ad in (([1, 1], [4, 8]), ([1, 1], [8, 4]), ([1, 0, 1], [4, 8, 4]))] +
+                   [dict(little=l, addr=a, sets=s, empty_ok=True) for l, a in ((True, 8), (False, 4)) for s in ([1], [2], [1, 1])], expect=('ok', 'miss'),
       desc='ARanges over generated sections (1-3 sets x 0-2 tuples, tuple alignment padding, header values symbolic) with symbolic begin/length (sets of one section with different address sizes included) under the disjointness '
            'assumption and a symbolic query address: offset of the unique containing range, None outside every range (also for a table without tuples); entries expose every tuple with its set header, sorted'),
     H('h13_1_aranges_absent', h_aranges_absent, lambda tier: [dict()], expect=('ok',), desc='no .debug_aranges section'),
